@@ -555,6 +555,18 @@ pub fn exec_replicas(ctx: &mut Ctx, s: &Scenario) -> Outcome {
                 }
                 if prop == "C10" {
                     crate::props::c10::check_lookups(ctx, &mut out, &what, o, &pf, &mut r, s.mode == "full-sweep" && i == 0);
+                    // a copy of the ontology value answers every lookup like the original (sampled: copying the id table is slow)
+                    if r.chance(1, 40) && pf.terms.len() < 5000 {
+                        let copy: Ontology = (**o).clone();
+                        ctx.counters.add("probe.ontology_cloned", 1);
+                        let mut got_c = observe(&copy);
+                        if spec.omits_version() {
+                            got_c.version = got.version.clone();
+                        }
+                        for d in crate::obs::diff_opts(&got, &got_c, IcCmp::Bits, true) {
+                            out.violate(prop, format!("clone-differs:{}", class_of(&d)), format!("{what}: clone() [{}] {} {} vs {}", d.field, d.key, crate::obs::clip(&d.a), crate::obs::clip(&d.b)));
+                        }
+                    }
                 }
                 built.push((b, Some(got), pf));
             }
